@@ -449,15 +449,14 @@ def build_configs(tier, seed):
         if fam == 'global':
             # V comes from an exact rational inverse on numeric geometry; X symbolic
             heavy = base in ('ElementTriArgyris', 'ElementTri15ParamPlate', 'ElementQuadBFS', 'ElementHexC1')
-            if heavy and quick:
-                continue
             if base == 'ElementHexC1':
                 continue
             if mesh == 'tri1':
                 mesh = 'tri1heron'
-            cfgs.append(dict(name='mapped/%s/%s/Gnum' % (spec, mesh), fn=mapped_config,
-                             kw=dict(spec=spec, mesh=mesh, free='none', maxfun=None if not quick else 6),
-                             opts=dict(timeout=900 if quick else 3000)))
+            if not (heavy and quick):
+                cfgs.append(dict(name='mapped/%s/%s/Gnum' % (spec, mesh), fn=mapped_config,
+                                 kw=dict(spec=spec, mesh=mesh, free='none', maxfun=None if not quick else 6),
+                                 opts=dict(timeout=900 if quick else 3000)))
             cfgs.append(dict(name='dual/%s/%s' % (spec, mesh), fn=global_dual_config, kw=dict(spec=spec, mesh=mesh),
                              opts=dict(timeout=900 if quick else 3000)))
             continue
